@@ -24,6 +24,8 @@ import (
 	"rare/cmd/helpers"
 	"rare/pkg/aggregation"
 	"rare/pkg/aggregation/sorting"
+	"rare/pkg/expressions"
+	"rare/pkg/expressions/stdlib"
 	. "verifh/lib"
 
 	"github.com/araddon/dateparse"
@@ -35,12 +37,18 @@ type c13Key struct {
 	Value   int64  `json:"value"`
 }
 type c13In struct {
-	Kind  string   `json:"kind"` // ax | seq | sort
+	Kind  string   `json:"kind"` // ax | seq | sort | hist
 	Mode  string   `json:"mode"` // raw --sort argument (hex, may be any bytes)
 	Keys  []c13Key `json:"keys"`
 	Pairs [][2]int `json:"pairs,omitempty"`
 	Perms [][]int  `json:"perms,omitempty"`
-	Via   string   `json:"via,omitempty"` // Sort | SortBy | counter | table-rows | table-cols
+	Via   string   `json:"via,omitempty"` // Sort | SortBy | counter | subkey | table-rows | table-cols | groups
+	Hist  []c13Ev  `json:"history,omitempty"` // kind hist: samples interleaved with reads (rendered frames)
+}
+type c13Ev struct {
+	Key  int   `json:"key"`
+	Inc  int64 `json:"inc"`
+	Read bool  `json:"read,omitempty"`
 }
 type c13Out struct {
 	Err    bool     `json:"build_error,omitempty"`
@@ -256,6 +264,8 @@ func c13Run(in c13In) (out c13Out) {
 		for _, p := range in.Pairs {
 			out.Seq = append(out.Seq, s(nv[p[0]], nv[p[1]]))
 		}
+	case "hist":
+		out.Outs = [][]int{c13History(in, fresh(), index)}
 	case "sort":
 		out.Outs = [][]int{}
 		for _, perm := range in.Perms {
@@ -317,6 +327,121 @@ func c13Run(in c13In) (out c13Out) {
 	return
 }
 
+// the NameSorter `rare reduce` would hand to AccumulatingGroup.Groups for a sort specification
+// (name before ':' and modifier, as cmd/helpers/sorting.go reads them)
+func nameSorterFor(mode string) sorting.NameSorter {
+	parts := strings.SplitN(mode, ":", 3)
+	name := strings.ToLower(parts[0])
+	rev := name == "value"
+	if len(parts) > 1 {
+		switch strings.ToLower(parts[1]) {
+		case "rev", "reverse":
+			rev = !rev
+		case "desc":
+			rev = true
+		case "asc":
+			rev = false
+		}
+	}
+	var s sorting.NameSorter
+	switch name {
+	case "numeric":
+		s = sorting.ByNameSmart
+	case "contextual", "context":
+		s = sorting.ByContextual()
+	case "date":
+		s = sorting.ByDateWithContextual()
+	default: // text, "", value (all values equal: the name decides)
+		s = sorting.ByName
+	}
+	if rev {
+		s = sorting.Reverse(s)
+	}
+	return s
+}
+
+// feeds a collector the history; every Read event calls the sorted accessor (a rendered frame)
+// with the one sorter instance the command would keep; returns the final read as key indices
+func c13History(in c13In, sorter sorting.NameValueSorter, index map[string]int) []int {
+	names := make([]string, len(in.Keys))
+	for i, k := range in.Keys {
+		names[i] = k.name()
+	}
+	var sample func(k int, inc int64)
+	var read func() []int
+	switch in.Via {
+	case "subkey":
+		c := aggregation.NewSubKeyCounter()
+		sample = func(k int, inc int64) { c.SampleValue(names[k], "s"+strconv.Itoa(int(inc&1)), inc) }
+		read = func() (res []int) {
+			for _, it := range c.ItemsSorted(sorter) {
+				res = append(res, index[it.Name])
+			}
+			return
+		}
+	case "table-rows":
+		t := aggregation.NewTable(" ")
+		sample = func(k int, inc int64) { t.SampleItem("c"+strconv.Itoa(int(inc&1)), names[k], inc) }
+		read = func() (res []int) {
+			for _, r := range t.OrderedRows(sorter) {
+				res = append(res, index[r.Name()])
+			}
+			return
+		}
+	case "table-cols":
+		t := aggregation.NewTable(" ")
+		sample = func(k int, inc int64) { t.SampleItem(names[k], "r"+strconv.Itoa(int(inc&1)), inc) }
+		read = func() (res []int) {
+			for _, cname := range t.OrderedColumns(sorter) {
+				res = append(res, index[cname])
+			}
+			return
+		}
+	case "groups": // rare reduce --sort {sum}
+		g := aggregation.NewAccumulatingGroup(stdlib.NewStdKeyBuilder())
+		if err := g.AddGroupExpr("key", "{1}"); err != nil {
+			panic(err)
+		}
+		if err := g.AddDataExpr("sum", "{sumi {.} {2}}", "0"); err != nil {
+			panic(err)
+		}
+		if err := g.SetSort("{sum}"); err != nil {
+			panic(err)
+		}
+		ns := nameSorterFor(modeStr(in))
+		sample = func(k int, inc int64) {
+			g.Sample(expressions.MakeArray(names[k], strconv.FormatInt(inc, 10)))
+		}
+		read = func() (res []int) {
+			for _, gk := range g.Groups(ns) {
+				res = append(res, index[string(gk)])
+			}
+			return
+		}
+	default: // counter
+		c := aggregation.NewCounter()
+		sample = func(k int, inc int64) { c.SampleValue(names[k], inc) }
+		read = func() (res []int) {
+			for _, it := range c.ItemsSortedBy(len(names)+1, sorter) {
+				res = append(res, index[it.Name])
+			}
+			return
+		}
+	}
+	for _, e := range in.Hist {
+		if e.Read {
+			read()
+		} else {
+			sample(e.Key, e.Inc)
+		}
+	}
+	res := read()
+	if res == nil {
+		res = []int{}
+	}
+	return res
+}
+
 func coqInts(xs []int) string {
 	ps := make([]string, len(xs))
 	for i, x := range xs {
@@ -369,6 +494,16 @@ func c13Case(in c13In) Case {
 			ps[i] = fmt.Sprintf("(%d,%d)", p[0], p[1])
 		}
 		cin = fmt.Sprintf("iSeq %s %s %s", HS(mode), its, CoqList(ps))
+	case "hist":
+		es := make([]string, len(in.Hist))
+		for i, e := range in.Hist {
+			if e.Read {
+				es[i] = "eR"
+			} else {
+				es[i] = fmt.Sprintf("eS %d %s", e.Key, Z(e.Inc))
+			}
+		}
+		cin = fmt.Sprintf("iCol %s %s %s %s", HS(mode), B(in.Via == "groups"), its, CoqList(es))
 	default:
 		ps := make([]string, len(in.Perms))
 		for i, p := range in.Perms {
@@ -403,8 +538,17 @@ func c13Case(in c13In) Case {
 		lname = lname[:i]
 	}
 	tags := []string{"kind=" + in.Kind}
-	if in.Kind == "sort" {
+	if in.Kind == "sort" || in.Kind == "hist" {
 		tags = append(tags, "via="+in.Via)
+	}
+	if in.Kind == "hist" {
+		reads := 0
+		for _, e := range in.Hist {
+			if e.Read {
+				reads++
+			}
+		}
+		tags = append(tags, fmt.Sprintf("intermediate-reads=%d", min(reads, 5)))
 	}
 	if out.Err {
 		tags = append(tags, "spec=rejected")
@@ -436,6 +580,21 @@ func c13Case(in c13In) Case {
 		tags = append(tags, "date-domain="+d)
 		if d == "mixed" {
 			tags = append(tags, kfDate)
+		}
+	}
+	if !out.Err && lname == "date" {
+		lo, _ := new(big.Int).SetString("-9223372036854775808", 10)
+		hi, _ := new(big.Int).SetString("9223372036854775807", 10)
+		far := false
+		for i := range infos {
+			for _, x := range instants[i] {
+				if x != nil && (x.Cmp(lo) < 0 || x.Cmp(hi) > 0) {
+					far = true
+				}
+			}
+		}
+		if far {
+			tags = append(tags, "instant-outside-int64-ns")
 		}
 	}
 	if !out.Err && lname == "date" && len(layouts) == 1 {
@@ -514,13 +673,15 @@ var poolNearCal = []string{"sund", "Sun.", "mo", "satur", "marc", "juni", "mär"
 
 // dates: several layouts; within a layout several instants
 var poolDates = [][]string{
-	{"2022-09-03", "2022-09-02", "2021-09-01", "1999-12-31", "2000-01-01", "2024-02-29", "1970-01-01", "0001-01-01"},
+	{"2022-09-03", "2022-09-02", "2021-09-01", "1999-12-31", "2000-01-01", "2024-02-29", "1970-01-01", "0001-01-01",
+		"9999-12-31", "1066-10-14", "1677-09-20", "1677-09-22", "2262-04-11", "2262-04-12", "1492-10-12", "3000-01-01"}, // incl. instants outside the int64-nanosecond range 1677..2262
 	{"01/02/2022", "12/31/2021", "03/04/2020", "11/11/2011", "02/29/2024", "10/01/1999"},
-	{"2022-09-03T10:00:00Z", "2022-09-03T09:59:59Z", "2021-01-01T00:00:00Z", "2022-09-03T10:00:01Z"},
+	{"2022-09-03T10:00:00Z", "2022-09-03T09:59:59Z", "2021-01-01T00:00:00Z", "2022-09-03T10:00:01Z",
+		"9999-12-31T23:59:59Z", "1066-10-14T09:00:00Z", "1677-09-21T00:12:43Z", "1677-09-21T00:12:44Z", "2262-04-11T23:47:16Z", "2262-04-11T23:47:17Z", "0001-01-01T00:00:00Z"},
 	{"2022-09-03 10:00:00", "2022-09-03 09:59:59", "2021-01-01 00:00:00", "2022-09-03 23:59:59"},
-	{"Jan 2, 2006", "Feb 1, 2006", "Dec 31, 2005", "Mar 15, 2010"},
+	{"Jan 2, 2006", "Feb 1, 2006", "Dec 31, 2005", "Mar 15, 2010", "Oct 14, 1066", "Dec 31, 9999", "Jul 4, 1776", "Jan 1, 2300"},
 	{"2 Jan 2006", "1 Feb 2006", "31 Dec 2005"},
-	{"2022/09/03", "2022/09/02", "2021/12/31"},
+	{"2022/09/03", "2022/09/02", "2021/12/31", "1066/10/14", "9999/12/31", "1600/01/01", "2400/02/29"},
 	{"20220903", "20220902", "20211231"},
 	{"2022-09-03T10:00:00+02:00", "2022-09-03T09:00:00+01:00", "2022-09-03T07:30:00-01:00", "2022-09-03T08:00:00+00:00"},
 	{"Mon, 02 Jan 2006 15:04:05 MST", "Tue, 03 Jan 2006 15:04:05 MST", "Sun, 01 Jan 2006 15:04:05 MST"},
@@ -889,6 +1050,21 @@ func c13Gen(r *Rng, n int, tier string) []Case {
 					in.Pairs = append(in.Pairs, in.Pairs[r.Intn(len(in.Pairs))])
 				}
 			}
+		case x < 12:
+			in.Kind = "hist"
+			in.Via = Pick(r, []string{"counter", "subkey", "table-rows", "table-cols", "groups", "groups"})
+			recipeKeys := rc.keys
+			if in.Via == "groups" {
+				// rare reduce: groups ordered by a NameSorter on the text of their accumulated sum
+				spec = genSpecFor(r, Pick(r, []string{"text", "numeric", "contextual", "context", ""}))
+				in.Mode = hex.EncodeToString([]byte(spec))
+				recipeKeys = "puretext"
+			}
+			in.Keys = mkKeys(r, genNames(r, recipeKeys, r.Range(2, 7)))
+			if len(in.Keys) < 2 {
+				continue
+			}
+			in.Hist = genHistory(r, len(in.Keys), in.Via == "groups")
 		default:
 			in.Kind = "sort"
 			in.Via = Pick(r, []string{"Sort", "Sort", "SortBy", "counter", "table-rows", "table-cols"})
@@ -913,6 +1089,9 @@ func c13Gen(r *Rng, n int, tier string) []Case {
 			}
 		}
 		cs := c13Case(in)
+		if in.Kind == "hist" && hasKF(cs.Tags) {
+			continue // collectors iterate Go maps: inside the recorded finding's domain the run would not be reproducible
+		}
 		if in.Kind == "sort" && in.Via != "Sort" && in.Via != "SortBy" && hasKF(cs.Tags) {
 			// inside the domain of a recorded finding the collectors' output depends on Go's map
 			// iteration order (that IS the finding); keep the run reproducible for a fixed seed by
@@ -923,6 +1102,48 @@ func c13Gen(r *Rng, n int, tier string) []Case {
 		cases = append(cases, cs)
 	}
 	return cases
+}
+
+// a history over k keys: every key sampled at least once, 5..30 samples with small increments,
+// reads (rendered frames) after about a third of the samples and at least one in the middle;
+// for `reduce` the final sums are pairwise distinct (equal sort keys are tied by construction)
+func genHistory(r *Rng, k int, distinct bool) []c13Ev {
+	for {
+		var h []c13Ev
+		n := r.Range(k+2, 30)
+		order := randPerm(r, k)
+		totals := make([]int64, k)
+		reads := 0
+		for i := 0; i < n; i++ {
+			key := r.Intn(k)
+			if i < k {
+				key = order[i]
+			}
+			inc := int64(r.Range(-5, 20))
+			if r.Chance(1, 6) {
+				inc = int64(r.Range(20, 400))
+			}
+			h = append(h, c13Ev{Key: key, Inc: inc})
+			totals[key] += inc
+			if i+1 < n && (r.Chance(1, 3) || (reads == 0 && i >= n/2)) {
+				h = append(h, c13Ev{Read: true})
+				reads++
+			}
+		}
+		ok := true
+		if distinct {
+			seen := map[int64]bool{}
+			for _, t := range totals {
+				if seen[t] {
+					ok = false
+				}
+				seen[t] = true
+			}
+		}
+		if ok {
+			return h
+		}
+	}
 }
 
 func hasKF(tags []string) bool {
@@ -962,7 +1183,30 @@ func fixedCases() []c13In {
 		mk("sort", "text:desc", "table-rows", "a", "b", "c", "d"),                 //
 		mk("ax", "contextual", "", "Jan", "FEB", "march", "Apr", "may", "JUNE", "jul", "aug", "sept", "oct", "nov", "dec"),
 		mk("ax", "contextual", "", "sat", "fri", "thu", "wed", "tue", "mon", "sun"),
+		mkHist("numeric", "groups", []string{"a", "b", "c"}, [][2]int64{{0, 5}, {1, 3}, {2, 1}, {-1, 0}, {2, 9}, {1, 4}}),
+		mkHist("numeric:desc", "groups", []string{"a", "b", "c"}, [][2]int64{{0, 5}, {-1, 0}, {1, 3}, {-1, 0}, {2, 1}, {-1, 0}, {2, 9}, {-1, 0}, {1, 4}}),
+		mkHist("value", "counter", []string{"a", "b", "c"}, [][2]int64{{0, 5}, {1, 3}, {2, 1}, {-1, 0}, {2, 9}, {1, 4}}),
+		mkHist("value:asc", "table-rows", []string{"a", "b", "c"}, [][2]int64{{0, 5}, {1, 3}, {2, 1}, {-1, 0}, {2, 9}, {1, 4}}),
+		mkHist("value", "table-cols", []string{"a", "b", "c"}, [][2]int64{{0, 5}, {1, 3}, {2, 1}, {-1, 0}, {2, 9}, {1, 4}}),
+		mkHist("value", "subkey", []string{"a", "b", "c"}, [][2]int64{{0, 5}, {1, 3}, {2, 1}, {-1, 0}, {2, 9}, {1, 4}}),
 	}
+}
+
+// history given as (key index, increment) pairs; key index -1 is an intermediate read
+func mkHist(mode, via string, names []string, evs [][2]int64) c13In {
+	ks := make([]c13Key, len(names))
+	for i, n := range names {
+		ks[i] = mkKey(n, 0)
+	}
+	in := c13In{Kind: "hist", Mode: hex.EncodeToString([]byte(mode)), Keys: ks, Via: via}
+	for _, e := range evs {
+		if e[0] < 0 {
+			in.Hist = append(in.Hist, c13Ev{Read: true})
+		} else {
+			in.Hist = append(in.Hist, c13Ev{Key: int(e[0]), Inc: e[1]})
+		}
+	}
+	return in
 }
 
 func main() {
@@ -970,8 +1214,9 @@ func main() {
 		Name:   "C13",
 		Header: "From Coq Require Import List ZArith String.\nFrom RareV Require Import Corr.C13Case.\nImport ListNotations.\nOpen Scope Z_scope. Open Scope string_scope.\n",
 		Rule: "fixed witnesses (repo tests, inputs of the findings) followed by seeded random cases: a (sort name, key recipe) pair, modifiers ''/:asc/:desc/:rev/:reverse in random letter case, 1 in 27 any specification incl. malformed ones; " +
-			"key recipes: numbers in several spellings (1, 1.0, 01, 1e0, -0, hex float, subnormal, > 2^53, out of range), nan/inf, text, number-like text (5x, 1,5), weekday/month names and abbreviations in random case, near-misses (sund, FR\\u0130), dates in 15 layouts, mixtures; values: distinct / many ties / all equal / int64 extremes. " +
+			"key recipes: numbers in several spellings (1, 1.0, 01, 1e0, -0, hex float, subnormal, > 2^53, out of range), nan/inf, text, number-like text (5x, 1,5), weekday/month names and abbreviations in random case, near-misses (sund, FR\\u0130), dates in 15 layouts incl. years 0001..9999 (instants outside the int64-nanosecond range), mixtures; values: distinct / many ties / all equal / int64 extremes. " +
 			"kinds: ax = every ordered pair on a fresh BuildSorter instance (decision matrix, compared off the diagonal; axioms on all triples in Coq); seq = 3..40 comparisons of distinct keys incl. swapped and repeated pairs on one instance; " +
+			"hist = a collector (MatchCounter.ItemsSortedBy, SubKeyCounter.ItemsSorted, TableAggregator.OrderedRows/OrderedColumns, AccumulatingGroup.Groups with SetSort({sum}) as in rare reduce) fed 5..30 samples interleaved with reads of the sorted view (rendered frames) on one sorter instance; the final read is compared with the model's function of the final totals alone; " +
 			"sort = sorting.Sort / SortBy / MatchCounter.ItemsSortedBy / TableAggregator.OrderedRows / OrderedColumns on every arrangement (<= 5 keys, sometimes 6) or 50 random arrangements (6..12 keys), fresh sorter each. " +
 			"distinct = distinct (kind, specification, keys with values, pairs/arrangements, path); non-trivial = at least 3 keys. --sort date cases whose key set is neither inside one layout nor without any layout lie in the domain of the recorded finding C13-stateful-date: they carry its kf: tag (decided from specification and keys alone) and go through Sort/SortBy only (the collectors' map order would make the run irreproducible there). Distribution tags numbers+text, equal-values, calendar-mixture, calendar-tie, equal-instants mark the key sets the repaired comparators are about.",
 		Gen: c13Gen,
